@@ -9,9 +9,11 @@ import (
 	"sync"
 
 	"github.com/btcsuite/btcd/blockchain"
+	"github.com/btcsuite/btcd/btcjson"
 	"github.com/btcsuite/btcd/btcutil/v2"
 	"github.com/btcsuite/btcd/chainhash/v2"
 	"github.com/btcsuite/btcd/mempool"
+	"github.com/btcsuite/btcd/mining"
 	"github.com/btcsuite/btcd/wire/v2"
 )
 
@@ -31,17 +33,18 @@ type snapshot struct {
 // orphan pool that shared a redeemed outpoint with another orphan AND that
 // outpoint belongs to a transaction processOrphans walked (the operation's own
 // transactions or anything that entered the pool during the operation).
-func ndAfter(before, after snapshot, opTxs []int) bool {
-	return len(prioReadback(before, after, opTxs)) > 0
-}
-
 // prioReadback lists the contested orphans (see above) that left the orphan pool
-// during the operation: first those that are now pooled, then those that were
-// removed.  Tried in this order (then everything else) the model's processOrphans
-// reproduces what the implementation's map iteration did.
-func prioReadback(before, after snapshot, opTxs []int) []int {
+// during the operation: first those the implementation accepted, in the order it
+// reported them (an accepted orphan may already have been replaced again by a
+// later one), then those that were removed without being accepted.  Tried in this
+// order (then everything else) the model's processOrphans reproduces what the
+// implementation's map iteration did.  The second result counts the latter.
+func prioReadback(before, after snapshot, opTxs, accepted []int) ([]int, int) {
 	walked := map[int]bool{}
 	for _, id := range opTxs {
+		walked[id] = true
+	}
+	for _, id := range accepted {
 		walked[id] = true
 	}
 	for id := range after.pool {
@@ -65,16 +68,20 @@ func prioReadback(before, after snapshot, opTxs []int) []int {
 		}
 	}
 	var in, out []int
-	for id := range left {
-		if after.pool[id] {
+	isAcc := map[int]bool{}
+	for _, id := range accepted {
+		if left[id] && !isAcc[id] {
 			in = append(in, id)
-		} else {
+		}
+		isAcc[id] = true
+	}
+	for id := range left {
+		if !isAcc[id] {
 			out = append(out, id)
 		}
 	}
-	sort.Ints(in)
 	sort.Ints(out)
-	return append(in, out...)
+	return append(in, out...), len(out)
 }
 
 // resolveND handles an operation after which contested orphans left the orphan
@@ -98,20 +105,14 @@ func contestedAll(sn snapshot) int {
 	return len(set)
 }
 
-func (r *runner) resolveND(before, after snapshot, opTxs []int, i, field int, obs string) string {
-	rb := prioReadback(before, after, opTxs)
+func (r *runner) resolveND(before, after snapshot, opTxs, accepted []int, i, field int, obs string) string {
+	rb, removed := prioReadback(before, after, opTxs, accepted)
 	if len(rb) == 0 {
 		return ""
 	}
 	f := strings.Split(r.ops[i], ":")
 	// two or more contested orphans were removed without being accepted: which of them was tried
 	// (and failed) first cannot be read back, so no choice is recorded and both sides stop here
-	removed := 0
-	for _, id := range rb {
-		if !after.pool[id] {
-			removed++
-		}
-	}
 	if r.record {
 		if removed >= 2 {
 			// the order cannot be read back directly: record the outcome, the model side searches
@@ -261,8 +262,14 @@ func (r *runner) snap() snapshot {
 		}
 	}
 	// descriptors: TxDescs / MiningDescs / TxHashes / RawMempoolVerbose tell the same story as the pool map
+	r.snaps++
+	deep := r.snaps%3 == 0 // the listings below are the expensive part of an observation
 	seen := map[int]bool{}
-	for _, d := range mp.TxDescs() {
+	var descs []*mempool.TxDesc
+	if deep {
+		descs = mp.TxDescs()
+	}
+	for _, d := range descs {
 		id := r.idOf(*d.Tx.Hash())
 		def, ok := r.u.defs[id]
 		if !ok || !sn.pool[id] || seen[id] || d.Fee != def.fee || d.FeePerKB != def.fee*1000/def.vsize ||
@@ -271,7 +278,11 @@ func (r *runner) snap() snapshot {
 		}
 		seen[id] = true
 	}
-	for _, d := range mp.MiningDescs() {
+	var mdescs []*mining.TxDesc
+	if deep {
+		mdescs = mp.MiningDescs()
+	}
+	for _, d := range mdescs {
 		id := r.idOf(*d.Tx.Hash())
 		def, ok := r.u.defs[id]
 		if !ok || !sn.pool[id] || d.Fee != def.fee || d.FeePerKB != def.fee*1000/def.vsize || d.Height != heights[id] {
@@ -283,9 +294,12 @@ func (r *runner) snap() snapshot {
 			bad = ";api-hashes"
 		}
 	}
-	raw := mp.RawMempoolVerbose()
-	if len(raw) != len(pool) {
-		bad = ";api-raw"
+	raw := map[string]*btcjson.GetRawMempoolVerboseResult{}
+	if deep {
+		raw = mp.RawMempoolVerbose()
+		if len(raw) != len(pool) {
+			bad = ";api-raw"
+		}
 	}
 	for hs, e := range raw {
 		h, err := chainhash.NewHashFromStr(hs)
@@ -357,7 +371,8 @@ type runner struct {
 	stale               map[int]bool
 	last                snapshot
 	record, steerFailed bool
-	held []func() bool // results handed out earlier; each must still read the same at the end of the run
+	snaps               int
+	held                []func() bool // results handed out earlier; each must still read the same at the end of the run
 }
 
 // hold remembers a result the pool handed out: results are values, later operations must not change them.
@@ -555,13 +570,15 @@ func (r *runner) tx(idStr string) (*txDef, bool) {
 
 func b(s string) bool { return s == "1" }
 
-func (r *runner) descIDs(l []*mempool.TxDesc) string {
+func (r *runner) descIDList(l []*mempool.TxDesc) []int {
 	ids := make([]int, len(l))
 	for i, d := range l {
 		ids[i] = r.idOf(*d.Tx.Hash())
 	}
-	return joinInts(ids)
+	return ids
 }
+
+func (r *runner) descIDs(l []*mempool.TxDesc) string { return joinInts(r.descIDList(l)) }
 
 func (r *runner) missingIDs(l []*chainhash.Hash) string {
 	set := map[int]bool{}
@@ -640,8 +657,9 @@ func (r *runner) template() string {
 var debug = false
 
 type event struct {
-	kind byte // 'C' | 'U'
-	sn   snapshot
+	kind      byte // 'C' | 'U'
+	sn        snapshot
+	announced []int // orphans netsync announced as accepted while handling this notification, in order
 }
 
 // run executes the history on the REAL code.
@@ -655,7 +673,14 @@ func (r *runner) run() string {
 	}
 	defer r.e.close()
 	var events []event
-	r.e.onEvent = func(kind byte) { events = append(events, event{kind, r.snap()}) }
+	r.e.onEvent = func(kind byte) {
+		var ann []int
+		for _, h := range r.e.note.announced {
+			ann = append(ann, r.idOf(h))
+		}
+		r.e.note.announced = nil
+		events = append(events, event{kind, r.snap(), ann})
+	}
 	r.stale = map[int]bool{}
 	r.last = snapshot{pool: map[int]bool{}, orphans: map[int]bool{}}
 	if r.e.chain.BestSnapshot().MedianTime.Unix() != genesisTime {
@@ -668,7 +693,7 @@ func (r *runner) run() string {
 		mp := r.e.pool
 		before := r.last
 		runsOrphans := false
-		var opTxs []int
+		var opTxs, accIDs []int
 		switch {
 		case f[0] == "P" && len(f) == 7:
 			d, ok := r.tx(f[1])
@@ -699,6 +724,7 @@ func (r *runner) run() string {
 				}
 			default:
 				res = "a:" + r.descIDs(acc)
+				accIDs = r.descIDList(acc)
 				r.holdDescs(acc)
 			}
 		case f[0] == "A" && len(f) == 4:
@@ -767,6 +793,7 @@ func (r *runner) run() string {
 			opTxs = []int{d.id}
 			pacc := mp.ProcessOrphans(d.tx)
 			res = "a:" + r.descIDs(pacc)
+			accIDs = r.descIDList(pacc)
 			r.holdDescs(pacc)
 			if len(r.held)%3 == 0 {
 				r.holdDescs(mp.TxDescs()) // a listing is a value too
@@ -806,6 +833,8 @@ func (r *runner) run() string {
 				res = "events?"
 			} else if got := r.e.chain.BestSnapshot().MedianTime.Unix() - baseTime; got != bo.mtp {
 				res = "bad-facts:mtp"
+			} else {
+				accIDs = events[0].announced
 			}
 			if bo.mtp < best.MedianTime.Unix()-baseTime {
 				r.markStale()
@@ -888,7 +917,7 @@ func (r *runner) run() string {
 					}
 				}
 				if want == 'C' {
-					if tok := r.resolveND(r.last, ev.sn, btxs, i+1+j, 6, "-;"+ev.sn.text); tok != "" {
+					if tok := r.resolveND(r.last, ev.sn, btxs, ev.announced, i+1+j, 6, "-;"+ev.sn.text); tok != "" {
 						outs = append(outs, tok)
 						return strings.Join(outs, "|")
 					}
@@ -916,7 +945,7 @@ func (r *runner) run() string {
 			if f[0] == "O" {
 				field = 2
 			}
-			if tok := r.resolveND(before, r.last, opTxs, i, field, line); tok != "" {
+			if tok := r.resolveND(before, r.last, opTxs, accIDs, i, field, line); tok != "" {
 				outs = append(outs, tok)
 				break
 			}
